@@ -41,6 +41,7 @@ type HarnessCfg struct {
 	Validate     *int                        `json:"validate"`
 	AllowBlock   bool                        `json:"allow_block"`
 	ReplayRounds int                         `json:"replay_rounds"`
+	Timed        bool                        `json:"timed"` // the harness reads the clock / sleeps: natively its timing assumptions can fail under load
 	About        string                      `json:"about"`
 }
 
@@ -706,7 +707,9 @@ func cmdCheck(args []string) int {
 				v := &Violation{Harness: name, Label: "", Kind: "validate", Inputs: s.Inputs}
 				writeCex(p, *prop, h, *tier, v, o.Bounds)
 				ok, out := validateNative(ov, h, p, s)
-				if ok {
+				if ok && strings.Contains(out, "VP-SKIPPED-TIMING") {
+					fmt.Printf("NOTE harness=%s: a validation sample was skipped (native timing outside the assumed envelope on every attempt)\n", h.Func)
+				} else if ok {
 					validated++
 				} else {
 					validationFail++
@@ -830,13 +833,21 @@ func validateNative(ov *overlaySet, h HarnessCfg, cexPath string, s *PathSample)
 	if retries == 0 {
 		retries = 1
 	}
+	if h.Timed && retries < 4 {
+		retries = 4
+	}
 	var out string
+	timingOnly := h.Timed
 	for i := 0; i < retries; i++ {
 		o, _ := runNative(ov, h.Pkg, cexPath, 60*time.Second)
 		out = o
 		if !strings.Contains(o, "VP-RESULT ok") {
+			if !strings.Contains(o, "VP-ABORT assumption violated natively") {
+				timingOnly = false
+			}
 			continue
 		}
+		timingOnly = false
 		// compare observations
 		var nat []string
 		for _, l := range strings.Split(o, "\n") {
@@ -863,6 +874,11 @@ func validateNative(ov *overlaySet, h HarnessCfg, cexPath string, s *PathSample)
 		if same {
 			return true, o
 		}
+	}
+	if timingOnly {
+		// every native attempt left the timing envelope the harness assumes (operations kept a margin away from
+		// deadlines): the sample says nothing about the translator; it is skipped, not counted as validated
+		return true, out + "\nVP-SKIPPED-TIMING"
 	}
 	return false, out
 }
